@@ -5,7 +5,7 @@ from ..prog import PPtr
 from ..facts import AnalysisBroken
 from ..interp import normx, nkey, run_all
 
-UNITS = ["bufferevent_sock", "bufferevent_pair", "bufferevent_filter", "bufferevent"]
+UNITS = ["bufferevent_sock", "bufferevent_pair", "bufferevent_filter", "bufferevent_ssl", "bufferevent"]
 LEVEL = "other"
 CONFIGS = ["build", "assert"]
 EXPLANATION = (
@@ -24,7 +24,12 @@ EXPLANATION = (
     "and its output buffer is drained only by the transport - K2 over the buffer-mutating calls. "
     "F (filter): be_filter_read_nolock_ never returns with data left in the underlying input unless the filter input is full and the inbuf callback is armed (somebody comes back "
     "for it); be_filter_eventcb forwards each event once, unchanged, after pushing pending input through the filter in FINISHED mode when the read direction ended. "
-    "Declined: equality of the byte streams over histories of writes, toggles, flushes and faults (runtime values and orders), user filter callbacks, the TLS state machines.")
+    "T (TLS do_read / do_write): over iovec layouts x scripts of answers of the TLS read / write (progress of 1, 2 or everything asked; want-read; want-write; closed) x the rate limit "
+    "suspending after the first progress: the bytes the TLS read delivered are exactly the extents committed to the input (in place, in order, once); closure is never reported while "
+    "bytes read in this call are uncommitted; the bytes the TLS write accepted are exactly the prefix drained from the output, no byte is offered twice, nothing of length zero is offered. "
+    "D (deferred runners): the pending flag of a data callback is cleared before the callback runs (C19's decision table reused: a violation strands bytes in the input). "
+    "Declined: equality of the byte streams over histories of writes, toggles, flushes and faults (runtime values and orders), user filter callbacks, the TLS handshake state machines, "
+    "the early OP_ERR returns of do_read / do_write after progress (allocation of an event failing in set/clear_rbow: the connection is torn down).")
 ASSUMPTIONS = ["evbuffer_read/evbuffer_write_atmost move exactly what the system call reports (C16)", "evbuffer_add_buffer/remove_buffer move bytes in order (C12)"]
 
 
@@ -366,6 +371,9 @@ def rule_filter(P, C):
     und, what_p, me = g.params[0][0], g.params[1][0], g.params[2][0]
     EV = lambda *n: sum(C[x] for x in n)
     cases = [("eof", EV("BEV_EVENT_READING", "BEV_EVENT_EOF"), True), ("read-error", EV("BEV_EVENT_READING", "BEV_EVENT_ERROR"), True), ("write-error", EV("BEV_EVENT_WRITING", "BEV_EVENT_ERROR"), False),
+             # be_pair_flush(EV_READ|EV_WRITE, BEV_FINISHED) announces EOF with both direction bits: the read direction has ended all the same
+             ("eof-both-directions", EV("BEV_EVENT_READING", "BEV_EVENT_WRITING", "BEV_EVENT_EOF"), True), ("error-both-directions", EV("BEV_EVENT_READING", "BEV_EVENT_WRITING", "BEV_EVENT_ERROR"), True),
+             ("write-eof", EV("BEV_EVENT_WRITING", "BEV_EVENT_EOF"), False),
              ("timeout", EV("BEV_EVENT_READING", "BEV_EVENT_TIMEOUT"), False), ("connected", C.get("BEV_EVENT_CONNECTED", 0x80), False)]
     for cname, what, ends in cases:
         for left in (0, 50):
@@ -416,6 +424,258 @@ def rule_filter(P, C):
     return r
 
 
+def concx(e, env, P):
+    """array indices that evaluate to integers are replaced by those integers (space[i] -> space[1]) so that the cell names are the ones stores used"""
+    if not isinstance(e, list) or not e:
+        return e
+    if not isinstance(e[0], str):
+        return [concx(x, env, P) for x in e]
+    if e[0] in ("int", "str", "var", "fn", "null", "other", "sizeof", "float"):
+        return e
+    out = [e[0]] + [concx(x, env, P) if isinstance(x, list) else x for x in e[1:]]
+    if e[0] == "idx" and not is_e(strip(out[2]), "int"):
+        try:
+            out[2] = ["int", evalx(out[2], env, P)]
+        except EvalError:
+            pass
+    return out
+
+
+def slot_name(e):
+    """name of the function-pointer slot an indirect call goes through (ops->read(...) -> 'read')"""
+    if is_e(e, "call") and isinstance(e[1], list) and e[1] and e[1][0] == "slot":
+        return e[1][1].split(".")[-1]
+    return None
+
+
+def rule_tls(P, C):
+    """do_read / do_write of the TLS bufferevents: iovec accounting.  What the TLS library delivered is exactly what is committed to the input; what it accepted is
+    exactly what is drained from the output; the end of the stream is announced only when nothing read in this call is still uncommitted."""
+    r = Rule("C17-tls", "K6", "TLS do_read commits exactly the bytes the TLS read delivered (in place, in order) and reports closure only with nothing uncommitted; do_write drains exactly the bytes the TLS write accepted, never offers a byte twice", floor=40)
+    f = P.fn("do_read")
+    bs, ntr = f.params[0][0], f.params[1][0]
+    bsv = ["var", bs, "param"]
+    SP = lambda i, fl: nkey(["fld", ["idx", ["var", "space", "local"], ["int", i]], "iovec.%s" % fl, "."])
+    BASE = (1000, 2000)
+    K = lambda *path: None
+    susp_key = nkey(["fld", ["fld", bsv, "bufferevent_ssl.bev", "->"], "bufferevent_private.read_suspended", "."])
+    rbow_key = nkey(["fld", bsv, "bufferevent_ssl.read_blocked_on_write", "->"])
+    und_key = nkey(["fld", bsv, "bufferevent_ssl.underlying", "->"])
+    import itertools
+    ALPHA = [1, 2, 9, "want-read", "want-write", "closed"]
+    scripts = [()] + [(a,) for a in ALPHA] + [(a, b) for a in (1, 2, 9) for b in ALPHA] + [(a, b, c) for a in (1, 2, 9) for b in (1, 2, 9) for c in ALPHA] + \
+              [(1, 1, 1, c) for c in ALPHA] + [(2, 1, 2, c) for c in ("closed", "want-read", 9)]
+    layouts = [((4,),), ((4, 3),), ((1, 5),)]
+    for (sizes,) in layouts:
+        for script in scripts:
+            for suspend_after in (None, 1):
+                env = {"#typed": 1, "event_debug_logging_mask_": 0, bs: 7, ntr: sum(sizes), susp_key: 0, rbow_key: 0, und_key: 0, "#ops": (), "#k": 0, "#nprog": 0}
+
+                def hook(el, e_):
+                    n = callee_name(el.e) or slot_name(el.e)
+                    a = el.e[2]
+                    try:
+                        if n == "bufferevent_get_read_max_":
+                            return 100
+                        if n == "evbuffer_reserve_space":
+                            for i_, sz in enumerate(sizes):
+                                e_[SP(i_, "iov_base")] = BASE[i_]
+                                e_[SP(i_, "iov_len")] = sz
+                            return len(sizes)
+                        if n == "clear_error" or n == "print_err":
+                            return 0
+                        if n == "read":
+                            addr, room = evalx(concx(normx(a[1]), e_, P), e_, P), evalx(concx(normx(a[2]), e_, P), e_, P)
+                            k = e_["#k"]
+                            e_["#k"] = k + 1
+                            x = script[k] if k < len(script) else "want-read"
+                            if isinstance(x, int):
+                                got = min(x, room)
+                                if got <= 0:
+                                    e_["#ops"] = e_["#ops"] + (("read-zero-room", addr, room),)
+                                    e_["#err"] = "want-read"
+                                    return -1
+                                e_["#ops"] = e_["#ops"] + (("got", addr, got),)
+                                return got
+                            e_["#errk"] = x
+                            return 0 if x == "closed" else -1
+                        if n == "get_error":
+                            return {"want-read": 2, "want-write": 3, "closed": 6}[e_.get("#errk", "want-read")]
+                        if n == "err_is_want_read":
+                            return 1 if evalx(concx(normx(a[0]), e_, P), e_, P) == 2 else 0
+                        if n == "err_is_want_write":
+                            return 1 if evalx(concx(normx(a[0]), e_, P), e_, P) == 3 else 0
+                        if n == "conn_closed":
+                            e_["#ops"] = e_["#ops"] + (("closed", evalx(concx(normx(a[1]), e_, P), e_, P)),)
+                            return 0
+                        if n == "decrement_buckets":
+                            e_["#nprog"] += 1
+                            if suspend_after is not None and e_["#nprog"] >= suspend_after:
+                                e_[susp_key] = 1
+                            return 0
+                        if n in ("clear_rbow", "set_rbow"):
+                            return 0
+                        if n == "evbuffer_commit_space":
+                            cnt = evalx(concx(normx(a[2]), e_, P), e_, P)
+                            e_["#ops"] = e_["#ops"] + (("commit",) + tuple((e_.get(SP(i_, "iov_base")), e_.get(SP(i_, "iov_len"))) for i_ in range(cnt)),)
+                            return 0
+                    except EvalError as ex:
+                        e_["#err"] = str(ex)
+                        return "impure"
+                    except KeyError as ex:
+                        e_["#err"] = "key %s" % ex
+                        return "impure"
+                    return None
+                outs = [o for o in run_all(f, (f.entry, 0), env, lambda el: False, P, hook, max_steps=1500) if not (o.kind == "exit" and o.why == "noreturn")]
+                for o in outs:
+                    if o.kind == "unknown":
+                        r.brk("do_read: %s %s" % (o.why, o.env.get("#err", "")))
+                        return r
+                    ops = o.env["#ops"]
+                    got = [(x[1], x[2]) for x in ops if x[0] == "got"]
+                    commits = [x for x in ops if x[0] == "commit"]
+                    committed = [pr for c in commits for pr in c[1:]]
+                    # the bytes delivered, merged into maximal runs per iovec
+                    runs = []
+                    okshape = True
+                    for addr, ln in got:
+                        if runs and runs[-1][0] + runs[-1][1] == addr:
+                            runs[-1][1] += ln
+                        else:
+                            runs.append([addr, ln])
+                    r.inst(("read", sizes, script, suspend_after), {"iovecs": list(sizes), "tls_read_answers": [str(x) for x in script], "rate_limit_suspends_after": suspend_after,
+                                                                     "delivered": got, "committed": [list(x) for x in committed], "actions": [x[0] for x in ops]})
+                    bad = []
+                    if [tuple(x) for x in runs] != [tuple(x) for x in committed if x[1]]:
+                        bad.append("the TLS read delivered %s, committed to the input: %s" % ([tuple(x) for x in runs], committed))
+                    if any(b not in BASE for b, _ in committed):
+                        bad.append("a committed extent does not start at the reserved address: %s" % (committed,))
+                    if len(commits) > 1:
+                        bad.append("commits twice")
+                    for i_, x in enumerate(ops):
+                        if x[0] == "closed":
+                            pend = any(y[0] == "got" for y in ops[:i_]) and not any(y[0] == "commit" for y in ops[:i_])
+                            if pend:
+                                bad.append("closure is reported while bytes read in this call are not yet committed (EOF/error would overtake data)")
+                    if any(x[0] == "read-zero-room" for x in ops):
+                        bad.append("asks the TLS library to read into zero bytes of room (a 0 answer would be taken for closure)")
+                    if bad:
+                        r.bad("K6:do_read:iovec-accounting", "%s:%d" % (f.file, f.line), f.name, "iovecs %s, TLS read answers %s%s: %s" % (list(sizes), list(script), ", rate limit suspends after the first read" if suspend_after else "", "; ".join(bad)))
+    # do_write
+    g = P.fn("do_write")
+    bs = g.params[0][0]
+    bsv = ["var", bs, "param"]
+    wsusp_key = nkey(["fld", ["fld", bsv, "bufferevent_ssl.bev", "->"], "bufferevent_private.write_suspended", "."])
+    wbor_key = nkey(["fld", bsv, "bufferevent_ssl.write_blocked_on_read", "->"])
+    lw_key = nkey(["fld", bsv, "bufferevent_ssl.last_write", "->"])
+    fl_key = nkey(["fld", bsv, "bufferevent_ssl.flags", "->"])
+    und_key = nkey(["fld", bsv, "bufferevent_ssl.underlying", "->"])
+    WB = (1000, 2000, 3000)
+    wlayouts = [(5,), (3, 4), (2, 0, 3), (0, 4)]
+    WALPHA = [1, 2, 9, "want-read", "want-write", "closed"]
+    wscripts = [()] + [(a,) for a in WALPHA] + [(a, b) for a in (1, 2, 9) for b in WALPHA] + [(a, b, c) for a in (1, 2, 9) for b in (1, 2, 9) for c in WALPHA]
+    for sizes in wlayouts:
+        for script in wscripts:
+            for suspend_after in (None, 1):
+                env = {"#typed": 1, "event_debug_logging_mask_": 0, bs: 7, g.params[1][0]: -1, wsusp_key: 0, wbor_key: 0, lw_key: -1, fl_key: 0, und_key: 0, "#ops": (), "#k": 0, "#nprog": 0}
+
+                def hookw(el, e_):
+                    n = callee_name(el.e) or slot_name(el.e)
+                    a = el.e[2]
+                    try:
+                        if n == "bufferevent_get_write_max_":
+                            return 100
+                        if n == "evbuffer_peek":
+                            for i_, sz in enumerate(sizes):
+                                e_[SP(i_, "iov_base")] = WB[i_]
+                                e_[SP(i_, "iov_len")] = sz
+                            return len(sizes)
+                        if n in ("clear_error", "print_err", "evbuffer_pullup"):
+                            return 0
+                        if n == "write":
+                            addr, ln = evalx(concx(normx(a[1]), e_, P), e_, P), evalx(concx(normx(a[2]), e_, P), e_, P)
+                            k = e_["#k"]
+                            e_["#k"] = k + 1
+                            x = script[k] if k < len(script) else "want-write"
+                            if ln <= 0:
+                                e_["#ops"] = e_["#ops"] + (("write-zero", addr),)
+                                return 0
+                            if isinstance(x, int):
+                                took = min(x, ln)
+                                e_["#ops"] = e_["#ops"] + (("took", addr, took),)
+                                return took
+                            e_["#errk"] = x
+                            e_["#ops"] = e_["#ops"] + (("blocked", addr, ln),)
+                            return 0 if x == "closed" else -1
+                        if n == "get_error":
+                            return {"want-read": 2, "want-write": 3, "closed": 6}[e_.get("#errk", "want-write")]
+                        if n == "err_is_want_read":
+                            return 1 if evalx(concx(normx(a[0]), e_, P), e_, P) == 2 else 0
+                        if n == "err_is_want_write":
+                            return 1 if evalx(concx(normx(a[0]), e_, P), e_, P) == 3 else 0
+                        if n == "conn_closed":
+                            e_["#ops"] = e_["#ops"] + (("closed", evalx(concx(normx(a[1]), e_, P), e_, P)),)
+                            return 0
+                        if n == "decrement_buckets":
+                            e_["#nprog"] += 1
+                            if suspend_after is not None and e_["#nprog"] >= suspend_after:
+                                e_[wsusp_key] = 1
+                            return 0
+                        if n in ("clear_wbor", "set_wbor"):
+                            return 0
+                        if n == "evbuffer_drain":
+                            e_["#ops"] = e_["#ops"] + (("drain", evalx(concx(normx(a[1]), e_, P), e_, P)),)
+                            return 0
+                        if n == "bufferevent_trigger_nolock_":
+                            e_["#ops"] = e_["#ops"] + (("writecb",),)
+                            return 0
+                    except EvalError as ex:
+                        e_["#err"] = str(ex)
+                        return "impure"
+                    except KeyError as ex:
+                        e_["#err"] = "key %s" % ex
+                        return "impure"
+                    return None
+                outs = [o for o in run_all(g, (g.entry, 0), env, lambda el: False, P, hookw, max_steps=1500) if not (o.kind == "exit" and o.why == "noreturn")]
+                for o in outs:
+                    if o.kind == "unknown":
+                        r.brk("do_write: %s %s" % (o.why, o.env.get("#err", "")))
+                        return r
+                    ops = o.env["#ops"]
+                    took = [(x[1], x[2]) for x in ops if x[0] == "took"]
+                    drains = [x[1] for x in ops if x[0] == "drain"]
+                    # the stream order of the output: iovec 0 from its base, then iovec 1, ...
+                    want_pos = []
+                    rest = [[WB[i_], sz] for i_, sz in enumerate(sizes) if sz]
+                    bad = []
+                    for addr, ln in took:
+                        if not rest or rest[0][0] != addr or ln > rest[0][1]:
+                            bad.append("the TLS write was offered [%d,+%d) but the next unsent byte of the output is at %s" % (addr, ln, rest[0] if rest else "the end"))
+                            break
+                        rest[0][0] += ln
+                        rest[0][1] -= ln
+                        if rest[0][1] == 0:
+                            rest.pop(0)
+                    total = sum(x[1] for x in took)
+                    if sum(drains) != total or len(drains) > 1:
+                        bad.append("the TLS write accepted %d byte(s), drained from the output: %s" % (total, drains))
+                    if any(x[0] == "write-zero" for x in ops):
+                        bad.append("offers zero bytes to the TLS write (its 0 answer would be taken for closure)")
+                    if total and ("writecb",) not in ops:
+                        bad.append("progress without triggering the write callback")
+                    r.inst(("write", sizes, script, suspend_after), {"iovecs": list(sizes), "tls_write_answers": [str(x) for x in script], "rate_limit_suspends_after": suspend_after,
+                                                                      "accepted": took, "drained": drains, "actions": [x[0] for x in ops]})
+                    if bad:
+                        r.bad("K6:do_write:iovec-accounting", "%s:%d" % (g.file, g.line), g.name, "output extents %s, TLS write answers %s%s: %s" % (list(sizes), list(script), ", rate limit suspends after the first write" if suspend_after else "", "; ".join(bad)))
+    seen, uniq = set(), []
+    for f_ in r.findings:
+        if f_.key not in seen:
+            seen.add(f_.key)
+            uniq.append(f_)
+    r.findings = uniq
+    return r
+
+
 def rule_movers(P):
     """who may put bytes into a bufferevent's input buffer / take bytes out of its output buffer inside the back ends"""
     r = Rule("C17-movers", "K2", "inside the socket and pair back ends only the transport writes bev->input and drains bev->output", floor=3)
@@ -439,6 +699,18 @@ def rule_movers(P):
     return r
 
 
+def rule_runners(P):
+    """the deferred-callback runners (bufferevent.c): a data callback's pending flag is cleared BEFORE the callback runs, so that data arriving while it runs (a pair or filter refilling the
+    input as the callback drains it) schedules another run instead of being forgotten.  The decision table is C19's (engine/props/C19.py: rule_runners); a violation there strands bytes in
+    the input buffer, which is this property."""
+    from . import C19
+    r = C19.rule_runners(P)
+    r.id = "C17-runners"
+    for f_ in r.findings:
+        f_.key = f_.key.replace("C19", "C17") if isinstance(f_.key, str) else f_.key
+    return r
+
+
 def run(ctx, config):
     P = ctx.prog(UNITS, config)
     C = consts(P)
@@ -448,7 +720,7 @@ def run(ctx, config):
         rr.brk("constants not found: %s" % [n for n in need if n not in C])
         return [rr]
     rules = []
-    for mk in (lambda: sock_rule(P, C, "bufferevent_readcb", "read"), lambda: sock_rule(P, C, "bufferevent_writecb", "write"), lambda: rule_pair(P, C), lambda: rule_filter(P, C), lambda: rule_movers(P)):
+    for mk in (lambda: sock_rule(P, C, "bufferevent_readcb", "read"), lambda: sock_rule(P, C, "bufferevent_writecb", "write"), lambda: rule_pair(P, C), lambda: rule_filter(P, C), lambda: rule_tls(P, C), lambda: rule_runners(P), lambda: rule_movers(P)):
         try:
             rules.append(mk())
         except AnalysisBroken as ex:
